@@ -7,7 +7,8 @@ import Sml.Props.C08
   Here:
 
   * any idle history (`C08.Idle`: new, or the last answer was a delivered transmission, an
-    `InvalidMessage` / `InvalidEsc` / `OutOfMemory` error, or the answer of `finalize` / `reset`),
+    `InvalidMessage` / `InvalidEsc` / `OutOfMemory` error, the answer of `finalize` / `reset`, or
+    a replacement of the decoder by `new` / `from_buf`),
   * start-free noise `g` in front of the cut-off transmission,
   * the capacity hypothesis only for the part that was actually received: `NoOom cap a`, "feeding the
     cut-off part `a` to a new decoder with that buffer does not report out-of-memory"
@@ -194,8 +195,8 @@ theorem noise_cut_then_frame (cap : Option Nat) (g m1 m2 : List UInt8) (k : Nat)
   rw [this]
   simp only [List.append_assoc]
 
-/-- The same from a decoder with any idle history `ops` of `push_byte` / `finalize` / `reset`
-calls (review item M4). -/
+/-- The same from a decoder with any idle history `ops` of `push_byte` / `finalize` / `reset` /
+`new` / `from_buf` calls (review item M4). -/
 theorem cut_then_frame_idle (cap : Option Nat) (ops : List Op) (h : Idle cap ops)
     (g m1 m2 : List UInt8) (k : Nat) (hg : StartFree g)
     (hstate : (Dec.pushAll (Dec.fresh none) ((frame m1).take k)).1.st = .normal)
